@@ -739,34 +739,44 @@ def mc_and_scripts(ctx, names, rnd, cap, maxlen=None, maxpts=None, mc=True, genl
     wd = vf.workdir(ctx.prop.lower() + "-mc")
     out = []
 
+    BIG = ("seq", "globalcc", "globalleja")     # exhaustive to the history length of their cfg; deeper histories by simulation
+
     def one(task):
         kind, name = task
         t0 = time.time()
         if kind == "mc":
             c = os.path.join(wd, "MC-%s.cfg" % name)
-            open(c, "w").write(mc_cfg_text(name, False, maxlen, maxpts))
+            open(c, "w").write(mc_cfg_text(name, False, None if name in BIG else maxlen, maxpts))
             r = vf.run_tlc("GridMC.tla", c, workers={"seq": 12, "globalcc": 8, "globalleja": 8}.get(name, 2), timeout=3600, xmx="8g")
+        elif kind == "sim":
+            c = os.path.join(wd, "Sim-%s.cfg" % name)
+            open(c, "w").write(mc_cfg_text(name, False, (maxlen or 4) + 2, maxpts))
+            r = vf.run_tlc("GridMC.tla", c, workers=4, timeout=1800, xmx="6g", simulate="num=%d" % (150 if name in BIG else 600), depth=(maxlen or 4) + 3)
         else:
             c = os.path.join(wd, "Gen-%s.cfg" % name)
-            open(c, "w").write(mc_cfg_text(name, True, genlen, maxpts))     # shorter histories: one script per abstract edge is printed
+            open(c, "w").write(mc_cfg_text(name, True, min(genlen, 3) if name in BIG else genlen, maxpts))     # shorter histories: one script per abstract edge is printed
             r = vf.run_tlc("GridMC.tla", c, workers=6, timeout=1800, xmx="6g")     # PrintT lines are written under the stream lock
         if os.environ.get("VERIF_TIMING"):
             print("GridMC %s %s %.1fs" % (kind, name, time.time() - t0))
         return r
 
     tasks = ([("mc", nm) for nm in names] if mc else []) + [("gen", nm) for nm in names]
+    if mc and not ctx.quick:
+        tasks += [("sim", nm) for nm in names]
     tasks.sort(key=lambda t: 0 if t == ("mc", "seq") else 1 if t[0] == "mc" and t[1].startswith("global") else 2)
     rs = vf.parallel_map(one, tasks, nproc=len(tasks))
     results = [{} for _ in names]
     for (kind, nm), r in zip(tasks, rs):
         results[names.index(nm)][kind] = r
     for name, res in zip(names, results):
-        if mc:
-            r = res["mc"]
-            vf.tlc_must_pass(r, "GridMC " + name)
-            ctx.add_tlc(r, "GridMC:" + name)
+        for kind in ("mc", "sim"):
+            if kind not in res:
+                continue
+            r = res[kind]
+            vf.tlc_must_pass(r, "GridMC %s %s" % (kind, name))
+            ctx.add_tlc(r, "GridMC%s:%s" % ("" if kind == "mc" else "-simulate", name))
             if r.violated:
-                ctx.report("spec:GridMC:%s:%s" % (name, r.violated), "the design model GridMC (%s) violates %s" % (name, r.violated), {"tlc": r.error_trace[:6000]})
+                ctx.report("spec:GridMC:%s:%s" % (name, r.violated), "the design model GridMC (%s, %s) violates %s" % (name, kind, r.violated), {"tlc": r.error_trace[:6000]})
         r = res["gen"]
         vf.tlc_must_pass(r, "GridMC Gen " + name)
         ctx.add_tlc(r, "GridGen:" + name)
